@@ -1,4 +1,5 @@
 """C02 — EXDATE/EXRULE remove, RDATE adds: recurrence-set algebra."""
+import re
 from ..facts import walk, strip, strip_casts, lv, show, writes, calls, int_value, root_var
 from ..flow import cond_atoms
 from ..q import (Site, call_sites, site_before, forward_scan, backward_scan, const_eval, edge_start, elem_has_call)
@@ -417,11 +418,46 @@ def r02_3(prog, rep):
         rep.broken_("rule=R02.3 no pop of the exception stream found outside next_evfilt")
 
 
+def r02_4(prog, rep):
+    """RDATE and EXDATE may occur several times in one event (RFC 5545 3.8.5.1/3.8.5.2; many exporters write one EXDATE line per
+    exception).  In the parser the list field of such a property is overwritten only while it is still empty; otherwise the new values are
+    appended.  A plain overwrite keeps only the last line: the exceptions of the earlier lines are not excluded."""
+    rid = "R02.4"
+    from ..flow import MustFacts
+    f = prog.fn("snarf_fld", "evical.c")
+    cfg = f.cfg
+    mf = MustFacts(cfg)
+    n = 0
+    for b, i, x, line in cfg.all_elems():
+        for l, kind, nn in writes(x):
+            if kind != "assign" or nn.get("k") != "bin" or nn["op"] != "=":
+                continue
+            t = lv(l).replace("*&", "")
+            m = re.match(r"^(\w+)->(rdat|xdat)$", t)
+            if not m:
+                continue
+            n += 1
+            key = "snarf_fld/%s-accumulates" % m.group(2)
+            facts = mf.at(b, i) or set()
+            empty = any(fx[0] in ("eq", "false") and m.group(2) in fx[1] and (fx[1].endswith("dt") or fx[1].endswith("ndt")) and (len(fx) == 2 or fx[2] == "0")
+                        for fx in facts)
+            if empty:
+                rep.ok(rid, key, f.loc(nn.get("line", line)), "%s is overwritten only while it is empty; further lines are appended" % t)
+            else:
+                rep.fail(rid, key, f.loc(nn.get("line", line)),
+                         "a repeated %s line replaces the list parsed from the earlier lines (%s is assigned without an emptiness test and without "
+                         "appending): only the last line's dates take effect" % ("EXDATE" if m.group(2) == "xdat" else "RDATE", t))
+    if n < 2:
+        rep.broken_("rule=R02.4 expected the stores of both date lists in snarf_fld, found %d" % n)
+
+
 def run(prog, rep, tier, snap):
     rep.rule("R02.1", "single-step decision table of next_evfilt over all order types of occurrence/exception endpoints", 8)
     rep.call(r02_1, prog, rep, tier)
     rep.rule("R02.2", "wiring of RRULE/RDATE vs EXRULE/EXDATE into the filter; sortedness; priming and cloning of the pending exception", 8)
     rep.call(r02_2, prog, rep)
+    rep.rule("R02.4", "repeated RDATE/EXDATE lines accumulate", 2)
+    rep.call(r02_4, prog, rep)
     rep.rule("R02.3", "exceptions are consumed outside the step function only for priming or strictly before the occurrence", 1)
     rep.call(r02_3, prog, rep)
     from . import c03
